@@ -78,13 +78,47 @@ static cbor_item_t* gen(struct rng* r, int depth) {
   }
 }
 
-struct job { int tid; uint64_t seed; int iters; uint64_t digest; };
+struct job { int tid; uint64_t seed; int iters; uint64_t digest; cbor_item_t* given; };
+
+/* process-global, non-reentrant libc state: the library has no business touching it from a worker.  The program's own definition takes
+   precedence over libc's, so a call from library code lands here and is counted. */
+#include <locale.h>
+#include <stdatomic.h>
+static _Atomic long setlocale_calls;
+char* setlocale(int category, const char* locale) { (void)category; if (locale) atomic_fetch_add(&setlocale_calls, 1); return (char*)"C"; }
+
+/* a tree with zero-length strings in every position, handed over to a thread before it starts (the original to one thread, a cbor_copy of it to another:
+   the two share no item, so each thread may read, re-reference and release its own) */
+static cbor_item_t* handover_tree(struct rng* r) {
+  cbor_item_t* a = cbor_new_indefinite_array();
+  cbor_item_t* parts[8]; int n = 0;
+  parts[n++] = cbor_build_bytestring((cbor_data)"", 0);
+  parts[n++] = cbor_build_stringn("", 0);
+  { cbor_item_t* e = cbor_build_bytestring((cbor_data)"", 0); parts[n++] = cbor_build_tag(1, e); cbor_decref(&e); }
+  { cbor_item_t* m = cbor_new_definite_map(1); cbor_item_t* k = cbor_build_stringn("", 0); cbor_item_t* v = cbor_build_bytestring((cbor_data)"", 0);
+    (void)cbor_map_add(m, (struct cbor_pair){.key = k, .value = v}); cbor_decref(&k); cbor_decref(&v); parts[n++] = m; }
+  { cbor_item_t* s = cbor_new_indefinite_string(); cbor_item_t* c = cbor_build_stringn("", 0); (void)cbor_string_add_chunk(s, c); cbor_decref(&c); parts[n++] = s; }
+  parts[n++] = cbor_build_uint8(0); parts[n++] = cbor_build_bool(false); parts[n++] = gen(r, 2);
+  for (int i = 0; i < n; i++) { (void)cbor_array_push(a, parts[i]); cbor_decref(&parts[i]); }
+  return a;
+}
+static uint64_t mix(uint64_t h, const unsigned char* p, size_t n);
+static uint64_t use_given(cbor_item_t* t, uint64_t h) {
+  for (int round = 0; round < 50; round++) {
+    unsigned char* buf = NULL; size_t bs = 0; size_t n = cbor_serialize_alloc(t, &buf, &bs);
+    h = mix(h, buf, n); free(buf);
+    for (size_t i = 0; i < cbor_array_size(t); i++) { cbor_item_t* x = cbor_array_get(t, i); h = mix(h, (unsigned char*)&x->type, sizeof x->type); cbor_decref(&x); }
+    cbor_item_t* c = cbor_copy(t); if (c) cbor_decref(&c);
+  }
+  return h;
+}
 static uint64_t mix(uint64_t h, const unsigned char* p, size_t n) { for (size_t i = 0; i < n; i++) h = (h ^ p[i]) * 1099511628211ULL; return h; }
 
 static void* work(void* arg) {
   struct job* j = arg; struct rng r = {j->seed * 2654435761ULL + 88172645463325252ULL};
   uint64_t h = 1469598103934665603ULL;
   FILE* nul = fopen("/dev/null", "w");
+  if (j->given) { h = use_given(j->given, h); cbor_decref(&j->given); }
   for (int it = 0; it < j->iters; it++) {
     cbor_item_t* t = gen(&r, 3);
     unsigned char* buf = NULL; size_t bs = 0;
@@ -117,9 +151,21 @@ int main(int argc, char** argv) {
   cbor_set_allocs(malloc, realloc, free);   /* configured once, before any thread exists */
   pthread_t th[64]; struct job jobs[64], solo[64];
   if (n > 64) n = 64;
-  for (int i = 0; i < n; i++) { jobs[i] = (struct job){i, seed * 1000 + (uint64_t)i, iters, 0}; pthread_create(&th[i], NULL, work, &jobs[i]); }
-  for (int i = 0; i < n; i++) pthread_join(th[i], NULL);
-  for (int i = 0; i < n; i++) printf("%d %016llx\n", i, (unsigned long long)jobs[i].digest);
-  for (int i = 0; i < n; i++) { solo[i] = (struct job){i, seed * 1000 + (uint64_t)i, iters, 0}; work(&solo[i]); printf("single %d %016llx\n", i, (unsigned long long)solo[i].digest); }
+  for (int pass = 0; pass < 2; pass++) {
+    struct job* js = pass == 0 ? jobs : solo;
+    for (int i = 0; i < n; i++) js[i] = (struct job){i, seed * 1000 + (uint64_t)i, iters, 0, NULL};
+    for (int i = 0; i + 1 < n; i += 2) {   /* thread i gets a tree, thread i+1 a copy of it */
+      struct rng r = {seed * 7919 + (uint64_t)i + 1};
+      js[i].given = handover_tree(&r); js[i + 1].given = cbor_copy(js[i].given);
+    }
+    if (pass == 0) {
+      for (int i = 0; i < n; i++) pthread_create(&th[i], NULL, work, &jobs[i]);
+      for (int i = 0; i < n; i++) pthread_join(th[i], NULL);
+      for (int i = 0; i < n; i++) printf("%d %016llx\n", i, (unsigned long long)jobs[i].digest);
+    } else {
+      for (int i = 0; i < n; i++) { work(&solo[i]); printf("single %d %016llx\n", i, (unsigned long long)solo[i].digest); }
+    }
+  }
+  if (atomic_load(&setlocale_calls) > 0) printf("NONREENTRANT setlocale called %ld time(s) by library code\n", atomic_load(&setlocale_calls));
   return 0;
 }
